@@ -90,6 +90,16 @@ func (p *Impl) Echo(x int32) (int32, error) {
 	return EchoResult(x), nil
 }
 
+// Blob returns a string of n bytes (n may exceed what a message can carry).
+func (p *Impl) Blob(n int32) (string, error) {
+	p.count(fmt.Sprintf("blob(%d)", n))
+	b := make([]byte, n)
+	for i := 0; i < len(b); i += 4093 {
+		b[i] = byte('a' + i%26)
+	}
+	return string(b), nil
+}
+
 func (p *Impl) Inc() error {
 	p.count("inc")
 	return nil
